@@ -27,6 +27,11 @@ class Divergence(HarnessError):
     pass
 
 
+class Answers(tuple):
+    """the answers of one execution; .trace = [(kind, arity, answer)]"""
+    trace = ()
+
+
 class RandomShim:
     def __init__(self, ex, permutations=False):
         self.ex = ex; self.permutations = permutations
@@ -42,7 +47,7 @@ class RandomShim:
             raise ValueError('Sample larger than population or is negative')
         gen = itertools.permutations if self.permutations else itertools.combinations
         options = list(gen(range(len(population)), k))
-        ans = self.ex.next('sample', len(options))
+        ans = self.ex.next('sample %d of %d' % (k, len(population)), len(options))
         return [population[i] for i in options[ans]]
 
     def __getattr__(self, name):
@@ -127,7 +132,8 @@ class Explorer:
             n += 1
             self.stats['points'] += len(trace) - len(prefix) if prefix else len(trace)
             self.stats['max_points'] = max(self.stats['max_points'], len(trace))
-            yield tuple(t[2] for t in trace), res
+            a = Answers(t[2] for t in trace); a.trace = list(trace)
+            yield a, res
             for i in range(len(prefix), len(trace)):
                 dev = sum(1 for t in trace[:i] if t[2] != 0)
                 for alt in range(1, trace[i][1]):
